@@ -52,8 +52,15 @@ def rule_skip(env, shared):
                 v = m.canon(unref(e.args[1]))
                 p = CProver([tuple(m.canon(x) if isinstance(x, tuple) else x for x in f) for f in env.event_facts(e)], ev,
                             e.ctx)
-                if p.le(Lc, v):
-                    good = (e, "counter form: stores %s >= LEN" % fmt(v)[:60])
+                if p.le(Lc, v) and not (v == Lc or p.le(v, Lc)):
+                    out.append(Ob("SKIP", key, "viol", e.loc(),
+                                  "early_exit of %s stores %s into the position counter: that is >= LEN (%s) but not LEN itself, "
+                                  "so the counter is left with less headroom than a pull past the end leaves it — for a source "
+                                  "ending near usize::MAX a few pulls after skip_to_end wrap the counter and elements are "
+                                  "delivered again" % (r["name"], fmt(v)[:60], fmt(Lc)[:80])))
+                    good = False
+                elif p.le(Lc, v):
+                    good = (e, "counter form: stores LEN")
                 else:
                     out.append(Ob("SKIP", key, "viol", e.loc(),
                                   "early_exit of %s stores %s into the position counter, which is not known to be >= LEN "
